@@ -233,22 +233,28 @@ pub open spec fn s_term(t: Seq<Token>, i: int, env: Env) -> SRes
         Some((f, j)) => match as_num(f) { Some(e) => if i < j <= t.len() { fold_term(t, j, e, env) } else { None }, None => Some((f, j)) },
         None => None }
 }
-/// at most one comparison (non-associative), yielding exactly 0 or 1
+/// comparisons associate left to right like every other binary operator ("left-to-right associativity"):
+/// `3 gt 2 gt 0` is `(3 gt 2) gt 0`; each one yields exactly 0 or 1
+#[verifier::opaque]
+pub open spec fn fold_comparison(t: Seq<Token>, i: int, first: real, env: Env) -> SRes
+    decreases t.len() - i, 6int
+{
+    if 0 <= i < t.len() && t[i] is Symbol && cmp_op(t[i]->Symbol_0@) is Some {
+        match s_term(t, i + 1, env) {
+            Some((u, k)) => match as_num(u) {
+                Some(second) => if i < k <= t.len() { fold_comparison(t, k, b2r(cmp(cmp_op(t[i]->Symbol_0@)->Some_0, first, second)), env) } else { None },
+                None => None },
+            None => None }
+    } else { Some((num(first), i)) }
+}
 #[verifier::opaque]
 pub open spec fn s_comparison(t: Seq<Token>, i: int, env: Env) -> SRes
-    decreases t.len() - i, 6int
+    decreases t.len() - i, 7int
 {
     match s_term(t, i, env) {
         Some((v, j)) => match as_num(v) {
             None => Some((v, j)),
-            Some(first) =>
-                if j > i && j < t.len() && t[j] is Symbol && cmp_op(t[j]->Symbol_0@) is Some {
-                    match s_term(t, j + 1, env) {
-                        Some((u, k)) => match as_num(u) {
-                            Some(second) => Some((num(b2r(cmp(cmp_op(t[j]->Symbol_0@)->Some_0, first, second))), k)),
-                            None => None },
-                        None => None }
-                } else { Some((num(first), j)) } },
+            Some(first) => if i < j <= t.len() { fold_comparison(t, j, first, env) } else { None } },
         None => None }
 }
 /// `and or xor` left to right on truthiness, both operands always evaluated
@@ -322,11 +328,11 @@ pub proof fn def_s_primary_inner(t: Seq<Token>, i: int, env: Env)
         }
     }
     })
-{ reveal(s_primary); reveal(s_primary_inner); reveal(fold_factor); reveal(s_factor); reveal(fold_term); reveal(s_term); reveal(s_comparison); reveal(fold_logical); reveal(s_logical); reveal(fold_list); reveal(s_expr_list); }
+{ reveal(s_primary); reveal(s_primary_inner); reveal(fold_factor); reveal(s_factor); reveal(fold_term); reveal(s_term); reveal(fold_comparison); reveal(s_comparison); reveal(fold_logical); reveal(s_logical); reveal(fold_list); reveal(s_expr_list); }
 
 pub proof fn def_s_primary(t: Seq<Token>, i: int, env: Env)
     ensures s_primary(t, i, env) == (if env.depth >= max_depth() { None } else { s_primary_inner(t, i, deeper(env)) })
-{ reveal(s_primary); reveal(s_primary_inner); reveal(fold_factor); reveal(s_factor); reveal(fold_term); reveal(s_term); reveal(s_comparison); reveal(fold_logical); reveal(s_logical); reveal(fold_list); reveal(s_expr_list); }
+{ reveal(s_primary); reveal(s_primary_inner); reveal(fold_factor); reveal(s_factor); reveal(fold_term); reveal(s_term); reveal(fold_comparison); reveal(s_comparison); reveal(fold_logical); reveal(s_logical); reveal(fold_list); reveal(s_expr_list); }
 
 pub proof fn def_fold_factor(t: Seq<Token>, i: int, acc: real, env: Env)
     ensures fold_factor(t, i, acc, env) == ({
@@ -338,7 +344,7 @@ pub proof fn def_fold_factor(t: Seq<Token>, i: int, acc: real, env: Env)
             None => None }
     } else { Some((num(acc), i)) }
     })
-{ reveal(s_primary); reveal(s_primary_inner); reveal(fold_factor); reveal(s_factor); reveal(fold_term); reveal(s_term); reveal(s_comparison); reveal(fold_logical); reveal(s_logical); reveal(fold_list); reveal(s_expr_list); }
+{ reveal(s_primary); reveal(s_primary_inner); reveal(fold_factor); reveal(s_factor); reveal(fold_term); reveal(s_term); reveal(fold_comparison); reveal(s_comparison); reveal(fold_logical); reveal(s_logical); reveal(fold_list); reveal(s_expr_list); }
 
 pub proof fn def_s_factor(t: Seq<Token>, i: int, env: Env)
     ensures s_factor(t, i, env) == ({
@@ -346,7 +352,7 @@ pub proof fn def_s_factor(t: Seq<Token>, i: int, env: Env)
         Some((f, j)) => match as_num(f) { Some(e) => if i < j <= t.len() { fold_factor(t, j, e, env) } else { None }, None => Some((f, j)) },
         None => None }
     })
-{ reveal(s_primary); reveal(s_primary_inner); reveal(fold_factor); reveal(s_factor); reveal(fold_term); reveal(s_term); reveal(s_comparison); reveal(fold_logical); reveal(s_logical); reveal(fold_list); reveal(s_expr_list); }
+{ reveal(s_primary); reveal(s_primary_inner); reveal(fold_factor); reveal(s_factor); reveal(fold_term); reveal(s_term); reveal(fold_comparison); reveal(s_comparison); reveal(fold_logical); reveal(s_logical); reveal(fold_list); reveal(s_expr_list); }
 
 pub proof fn def_fold_term(t: Seq<Token>, i: int, acc: real, env: Env)
     ensures fold_term(t, i, acc, env) == ({
@@ -358,7 +364,7 @@ pub proof fn def_fold_term(t: Seq<Token>, i: int, acc: real, env: Env)
             None => None }
     } else { Some((num(acc), i)) }
     })
-{ reveal(s_primary); reveal(s_primary_inner); reveal(fold_factor); reveal(s_factor); reveal(fold_term); reveal(s_term); reveal(s_comparison); reveal(fold_logical); reveal(s_logical); reveal(fold_list); reveal(s_expr_list); }
+{ reveal(s_primary); reveal(s_primary_inner); reveal(fold_factor); reveal(s_factor); reveal(fold_term); reveal(s_term); reveal(fold_comparison); reveal(s_comparison); reveal(fold_logical); reveal(s_logical); reveal(fold_list); reveal(s_expr_list); }
 
 pub proof fn def_s_term(t: Seq<Token>, i: int, env: Env)
     ensures s_term(t, i, env) == ({
@@ -366,24 +372,30 @@ pub proof fn def_s_term(t: Seq<Token>, i: int, env: Env)
         Some((f, j)) => match as_num(f) { Some(e) => if i < j <= t.len() { fold_term(t, j, e, env) } else { None }, None => Some((f, j)) },
         None => None }
     })
-{ reveal(s_primary); reveal(s_primary_inner); reveal(fold_factor); reveal(s_factor); reveal(fold_term); reveal(s_term); reveal(s_comparison); reveal(fold_logical); reveal(s_logical); reveal(fold_list); reveal(s_expr_list); }
+{ reveal(s_primary); reveal(s_primary_inner); reveal(fold_factor); reveal(s_factor); reveal(fold_term); reveal(s_term); reveal(fold_comparison); reveal(s_comparison); reveal(fold_logical); reveal(s_logical); reveal(fold_list); reveal(s_expr_list); }
 
 pub proof fn def_s_comparison(t: Seq<Token>, i: int, env: Env)
     ensures s_comparison(t, i, env) == ({
     match s_term(t, i, env) {
         Some((v, j)) => match as_num(v) {
             None => Some((v, j)),
-            Some(first) =>
-                if j > i && j < t.len() && t[j] is Symbol && cmp_op(t[j]->Symbol_0@) is Some {
-                    match s_term(t, j + 1, env) {
-                        Some((u, k)) => match as_num(u) {
-                            Some(second) => Some((num(b2r(cmp(cmp_op(t[j]->Symbol_0@)->Some_0, first, second))), k)),
-                            None => None },
-                        None => None }
-                } else { Some((num(first), j)) } },
+            Some(first) => if i < j <= t.len() { fold_comparison(t, j, first, env) } else { None } },
         None => None }
     })
-{ reveal(s_primary); reveal(s_primary_inner); reveal(fold_factor); reveal(s_factor); reveal(fold_term); reveal(s_term); reveal(s_comparison); reveal(fold_logical); reveal(s_logical); reveal(fold_list); reveal(s_expr_list); }
+{ reveal(s_primary); reveal(s_primary_inner); reveal(fold_factor); reveal(s_factor); reveal(fold_term); reveal(s_term); reveal(fold_comparison); reveal(s_comparison); reveal(fold_logical); reveal(s_logical); reveal(fold_list); reveal(s_expr_list); }
+
+pub open spec fn fold_comparison_body(t: Seq<Token>, i: int, first: real, env: Env) -> SRes {
+    if 0 <= i < t.len() && t[i] is Symbol && cmp_op(t[i]->Symbol_0@) is Some {
+        match s_term(t, i + 1, env) {
+            Some((u, k)) => match as_num(u) {
+                Some(second) => if i < k <= t.len() { fold_comparison(t, k, b2r(cmp(cmp_op(t[i]->Symbol_0@)->Some_0, first, second)), env) } else { None },
+                None => None },
+            None => None }
+    } else { Some((num(first), i)) }
+}
+pub proof fn def_fold_comparison(t: Seq<Token>, i: int, first: real, env: Env)
+    ensures fold_comparison(t, i, first, env) == fold_comparison_body(t, i, first, env)
+{ reveal(s_primary); reveal(s_primary_inner); reveal(fold_factor); reveal(s_factor); reveal(fold_term); reveal(s_term); reveal(fold_comparison); reveal(s_comparison); reveal(fold_logical); reveal(s_logical); reveal(fold_list); reveal(s_expr_list); }
 
 pub open spec fn fold_logical_body(t: Seq<Token>, i: int, e: SV, env: Env) -> SRes {
     if 0 <= i < t.len() && t[i] is Symbol && log_op(t[i]->Symbol_0@) is Some {
@@ -396,7 +408,7 @@ pub open spec fn fold_logical_body(t: Seq<Token>, i: int, e: SV, env: Env) -> SR
 }
 pub proof fn def_fold_logical(t: Seq<Token>, i: int, e: SV, env: Env)
     ensures fold_logical(t, i, e, env) == fold_logical_body(t, i, e, env)
-{ reveal(s_primary); reveal(s_primary_inner); reveal(fold_factor); reveal(s_factor); reveal(fold_term); reveal(s_term); reveal(s_comparison); reveal(fold_logical); reveal(s_logical); reveal(fold_list); reveal(s_expr_list); }
+{ reveal(s_primary); reveal(s_primary_inner); reveal(fold_factor); reveal(s_factor); reveal(fold_term); reveal(s_term); reveal(fold_comparison); reveal(s_comparison); reveal(fold_logical); reveal(s_logical); reveal(fold_list); reveal(s_expr_list); }
 
 pub proof fn def_s_logical(t: Seq<Token>, i: int, env: Env)
     ensures s_logical(t, i, env) == ({
@@ -404,7 +416,7 @@ pub proof fn def_s_logical(t: Seq<Token>, i: int, env: Env)
         Some((e, j)) => if i < j <= t.len() { fold_logical(t, j, e, env) } else { None },
         None => None }
     })
-{ reveal(s_primary); reveal(s_primary_inner); reveal(fold_factor); reveal(s_factor); reveal(fold_term); reveal(s_term); reveal(s_comparison); reveal(fold_logical); reveal(s_logical); reveal(fold_list); reveal(s_expr_list); }
+{ reveal(s_primary); reveal(s_primary_inner); reveal(fold_factor); reveal(s_factor); reveal(fold_term); reveal(s_term); reveal(fold_comparison); reveal(s_comparison); reveal(fold_logical); reveal(s_logical); reveal(fold_list); reveal(s_expr_list); }
 
 pub proof fn def_fold_list(t: Seq<Token>, i: int, out: Seq<ExprValue>, env: Env)
     ensures fold_list(t, i, out, env) == ({
@@ -415,14 +427,14 @@ pub proof fn def_fold_list(t: Seq<Token>, i: int, out: Seq<ExprValue>, env: Env)
             else { Some((SV::L(out2), j)) } },
         None => None }
     })
-{ reveal(s_primary); reveal(s_primary_inner); reveal(fold_factor); reveal(s_factor); reveal(fold_term); reveal(s_term); reveal(s_comparison); reveal(fold_logical); reveal(s_logical); reveal(fold_list); reveal(s_expr_list); }
+{ reveal(s_primary); reveal(s_primary_inner); reveal(fold_factor); reveal(s_factor); reveal(fold_term); reveal(s_term); reveal(fold_comparison); reveal(s_comparison); reveal(fold_logical); reveal(s_logical); reveal(fold_list); reveal(s_expr_list); }
 
 pub proof fn def_s_expr_list(t: Seq<Token>, i: int, env: Env)
     ensures s_expr_list(t, i, env) == ({
     if 0 < i < t.len() && t[i - 1] is OpenParen && t[i] is CloseParen { Some((SV::L(Seq::empty()), i)) }
     else { fold_list(t, i, Seq::empty(), env) }
     })
-{ reveal(s_primary); reveal(s_primary_inner); reveal(fold_factor); reveal(s_factor); reveal(fold_term); reveal(s_term); reveal(s_comparison); reveal(fold_logical); reveal(s_logical); reveal(fold_list); reveal(s_expr_list); }
+{ reveal(s_primary); reveal(s_primary_inner); reveal(fold_factor); reveal(s_factor); reveal(fold_term); reveal(s_term); reveal(fold_comparison); reveal(s_comparison); reveal(fold_logical); reveal(s_logical); reveal(fold_list); reveal(s_expr_list); }
 
 // ------------------------------------------------------------------------------ the real evaluator
 pub open spec fn env_of(es: EvalState) -> Env { Env { ctx: *es.context, checked: es.checked_vars@, depth: es.depth as nat } }
@@ -590,16 +602,31 @@ impl LogicalOp {
 //@ | proof { def_s_comparison(eval_state.tokens@, eval_state.index as int, env_of(*eval_state)); }
 //@ replace[R-parse] <<<s.parse::<ComparisonOp>()>>> => <<<ComparisonOp::from_str(&s)>>>
 //@ replace[R-cast] <<<comp as i32 as f32>>> => <<<r32_from_bool(comp)>>>
+//@ before <<<while let Some(Token::Symbol(s)) = eval_state.peek().cloned() {>>>
+//@ | proof { def_fold_comparison(eval_state.tokens@, eval_state.index as int, val(first), env_of(*eval_state)); }
+//@ after <<<first = r32_from_bool(comp);>>>
+//@ | proof { def_fold_comparison(eval_state.tokens@, eval_state.index as int, val(first), env_of(*eval_state)); }
 //@ requires
 //@ - old(eval_state).index <= old(eval_state).tokens@.len()
 //@ - old(eval_state).depth <= MAX_EVAL_DEPTH
 //@ ensures
 //@ - final(eval_state).depth == old(eval_state).depth     @@C01.expr.depth_restored
-//@ - level_post(*old(eval_state), *final(eval_state), r, s_comparison(old(eval_state).tokens@, old(eval_state).index as int, env_of(*old(eval_state))))     @@C14.cmp.bool
+//@ - level_post(*old(eval_state), *final(eval_state), r, s_comparison(old(eval_state).tokens@, old(eval_state).index as int, env_of(*old(eval_state))))     @@C14.cmp.bool @@C14.cmp.left_associative
 //@ - r is Ok ==> final(eval_state).index > old(eval_state).index
 //@ decreases
 //@ - old(eval_state).tokens@.len() - old(eval_state).index
 //@ - 6int
+//@ loop 1
+//@ invariant
+//@ - same_input(*old(eval_state), *eval_state)
+//@ - eval_state.depth <= MAX_EVAL_DEPTH
+//@ - old(eval_state).index < eval_state.index <= eval_state.tokens@.len()
+//@ - fold_comparison(eval_state.tokens@, eval_state.index as int, val(first), env_of(*eval_state)) == fold_comparison_body(eval_state.tokens@, eval_state.index as int, val(first), env_of(*eval_state))
+//@ - fold_comparison(eval_state.tokens@, eval_state.index as int, val(first), env_of(*eval_state)) == s_comparison(old(eval_state).tokens@, old(eval_state).index as int, env_of(*old(eval_state)))     @@C14.cmp.fold.loop
+//@ ensures
+//@ - s_comparison(old(eval_state).tokens@, old(eval_state).index as int, env_of(*old(eval_state))) == Some((num(val(first)), eval_state.index as int))
+//@ decreases
+//@ - eval_state.tokens@.len() - eval_state.index
 //@end
 
 //@item src/expression.rs :: fn logical
